@@ -70,12 +70,13 @@ def run_via_client(case):
     run_impl._imp()
     from elexmodel.handlers.data.CombinedData import CombinedDataHandler as C
 
-    flags = {"turnout_factor": [], "results_normalized_margin": []}
+    flags = {"turnout_factor": [], "results_normalized_margin": [], "_fitted": {}}
     orig = C._fit_outlier_detection_model
 
     def wrapped(slf, reporting_units, response_variable, z):
         out = orig(slf, reporting_units, response_variable, z)
         flags[response_variable] = list(out["geographic_unit_fips"])
+        flags["_fitted"][response_variable] = {"candidates": int(reporting_units.shape[0]), "z": float(z)}
         return out
 
     C._fit_outlier_detection_model = wrapped
@@ -294,6 +295,21 @@ def worker(job):
         h, flags2 = run_via_client(case)
         fp["client"] = bool(h["ok"])
         if h["ok"]:
+            # which outlier models ran, against the switches of this request (each model has its own switch; the margin model needs the margin)
+            mp_ = p.get("model_parameters", {})
+            fitted = flags2.pop("_fitted", {})
+            sw = {"turnout_factor": mp_.get("fit_turnout_outlier_model", True),
+                  "results_normalized_margin": mp_.get("fit_margin_outlier_model", True) and "margin" in p["estimands"]}
+            n_cand = max([v["candidates"] for v in fitted.values()] or [0])
+            for var, on in sw.items():
+                if var in fitted and not on:
+                    res["s"].append({"what": f"through ModelClient.get_estimates (model_parameters {mp_}): the outlier model for {var} was fitted although it is switched off "
+                                             f"({len(flags2[var])} units flagged)", "kind": "outlier-switch"})
+                elif on and var not in fitted and n_cand > 20:
+                    res["s"].append({"what": f"through ModelClient.get_estimates (model_parameters {mp_}): the outlier model for {var} is switched on and {n_cand} units "
+                                             f"qualify, but it was not fitted", "kind": "outlier-switch"})
+                elif on and var in fitted and abs(fitted[var]["z"] - float(mp_.get("outlier_z_threshold", 2.0))) > 1e-12:
+                    res["s"].append({"what": f"outlier model for {var} fitted with threshold {fitted[var]['z']}, the request says {mp_.get('outlier_z_threshold', 2.0)}", "kind": "outlier-switch"})
             want = py_decision(case, flags2)
             e0 = p["estimands"][0]
             got = {}
@@ -376,6 +392,14 @@ def jobs_for(chk):
             kw["model_parameters"] = rng.choice([{"turnout_factor_lower": 0, "turnout_factor_upper": 5}, {"turnout_factor_lower": 0.0, "turnout_factor_upper": 2.0},
                                                  {"turnout_factor_lower": 0.7, "turnout_factor_upper": 1.3}])
         jobs.append((rng.randint(0, 2**31), kw))
+    # the two outlier-model switches, one on and one off (both ways), and a non-default threshold, through the client, with enough units to fit
+    for i in range(6 if chk.tier == "quick" else 60):
+        pi = ["bootstrap", "nonparametric", "bootstrap"][i % 3]
+        mp = [{"fit_turnout_outlier_model": False}, {"fit_margin_outlier_model": False}, {"outlier_z_threshold": 1.5},
+              {"fit_turnout_outlier_model": False, "fit_margin_outlier_model": True}, {"fit_margin_outlier_model": False, "fit_turnout_outlier_model": True},
+              {"outlier_z_threshold": 3.0, "fit_margin_outlier_model": False}][i % 6]
+        jobs.append((rng.randint(0, 2**31), {"pi_method": pi, "via_client": True, "n_units": 90, "frac_reporting": 0.7, "threshold": 100, "model_parameters": dict(mp),
+                                             "avoid_boot_nan_key": True, "nan_rows": False, "feed_reuse": False, "prepared_feed": False}))
     return jobs
 
 
